@@ -240,6 +240,9 @@ def names_lifecycle(s):
     d(op='rc_list', v=39)
     for n in ('CUSTOM_T1', 'CUSTOM_T1', 'HW_CPU_X86_AVX', 'NOSUCH'):
         d(op='trait_put', v=39, name=n)
+    # "_" in a prefix is an ordinary character: CUSTOM_T_ is a prefix of no trait here
+    for pre in ('CUSTOM_T', 'CUSTOM_T_', 'CUSTOM_', 'HW_'):
+        d(op='traits_list', v=39, fkind='startswith', names=[], prefix=pre, assoc='')
     for n in ('HW_CPU_X86_AVX', 'NOSUCH', 'CUSTOM_T1', 'CUSTOM_T1'):
         d(op='trait_del', v=39, name=n)
     d(op='traits_list', v=39, fkind='startswith', names=[], prefix='CUSTOM_', assoc='')
